@@ -752,6 +752,59 @@ fn public_key_checksums(ctx: &Ctx) {
     }
 }
 
+/// Names around and beyond the length limit built from 1..4-byte characters with every small ASCII
+/// prefix (so that every byte offset up to the limit falls inside a multi-byte character in some case).
+pub fn boundary_names() -> Vec<String> {
+    let mut v = Vec::new();
+    for ch in ["\u{e9}", "\u{20ac}", "\u{4e2d}", "\u{1f511}", "x"] {
+        let w = ch.len();
+        for prefix in 0..=4usize {
+            for target in [120usize, 126, 127, 128, 129, 130, 131, 132, 160, 200, 300, 1000] {
+                let n = (target.saturating_sub(prefix) + w - 1) / w;
+                v.push(format!("{}{}", "a".repeat(prefix), ch.repeat(n)));
+            }
+        }
+    }
+    v
+}
+
+fn boundary_name_block(ctx: &Ctx) {
+    let mut rng = Rng::fork(ctx.seed, "C17-boundary");
+    let pk = refspec::encode_pk(&refspec::pubkey_of(&rng.arr32()));
+    for name in boundary_names() {
+        let text = format!("[Key]\nName = {}\nPublicKey = {}\n", name, pk);
+        ctx.eval();
+        let valid = !name.is_empty() && name.len() <= 128;
+        match guarded(|| Keyring::new(&text).map(|k| k.get_key(&name).is_some())) {
+            Err(p) => ctx.violation(&format!("C17:parser-panic:{}", panic_site(&p)), json!({"name_bytes": name.len(), "name_chars": name.chars().count(), "name": name})),
+            Ok(Ok(found)) => {
+                if !valid {
+                    ctx.violation("C17:accepted:entry-with-invalid-name", json!({"name_bytes": name.len(), "name": name}));
+                } else if !found {
+                    ctx.violation("C17:accepted:lookup-by-name-fails", json!({"name": name}));
+                } else {
+                    ctx.seen("boundary name (<= 128 bytes) accepted");
+                }
+            }
+            Ok(Err(_)) => {
+                if valid {
+                    ctx.violation("C17:rejected-a-well-formed-keyring", json!({"name_bytes": name.len(), "name": name}));
+                } else {
+                    ctx.seen("over-long multi-byte name rejected without a crash");
+                    ctx.distinct(&format!("boundary|{}|{}", name.len(), name.chars().count()));
+                }
+            }
+        }
+        // key generation's own name check agrees with the format limit (bytes)
+        ctx.eval();
+        match guarded(|| Keyring::valid_key_name(name.trim())) {
+            Ok(ok) if ok == (!name.trim().is_empty() && name.trim().len() <= 128) => {}
+            Ok(_) => ctx.violation("C17:key-generation-name-check-disagrees-with-the-128-byte-limit", json!({"name_bytes": name.len(), "name": name})),
+            Err(p) => ctx.violation(&format!("C17:parser-panic:{}", panic_site(&p)), json!({"name": name})),
+        }
+    }
+}
+
 fn no_crash_on_text(ctx: &Ctx) {
     let n = ctx.tier.pick(20_000, 400_000);
     par_for(16, crate::util::ncpu(), |sh| {
@@ -792,6 +845,8 @@ pub fn run(ctx: &Ctx) {
     documented_layout(ctx);
     public_key_checksums(ctx);
     no_crash_on_text(ctx);
+    boundary_name_block(ctx);
+    ctx.require("over-long multi-byte name rejected without a crash", 50);
     ctx.require("must-accept: accepted", 300);
     ctx.require("must-reject: rejected", 10_000);
     ctx.require("sections: rejected (duplicate public key", 100);
